@@ -101,7 +101,7 @@ pub struct CommandModel
     pub omit : [bool; 2],           // "does not produce declared target i"
     pub fail_code : bool,           // exits non-zero (and, per C08's assumption, writes nothing)
     pub spawn_error : bool,         // the shell could not be started
-    pub fresh_mtime : u8,           // mtime of its writes
+    pub fresh_mtime : [u8; 2],      // mtime of its write to target i (distinct writes carry distinct mtimes)
     pub exec_out : [bool; 2],
 }
 
@@ -153,7 +153,7 @@ pub static mut FS : Fs = Fs
     cache : [ABSENT; NCACHE],
     cache_dir : true,
     cmd : CommandModel { ntargets : 0, target_slot : [0, 1], out : [0, 0], omit : [false, false],
-        fail_code : false, spawn_error : false, fresh_mtime : 0, exec_out : [false, false] },
+        fail_code : false, spawn_error : false, fresh_mtime : [0, 0], exec_out : [false, false] },
     in_scope : [false; NWS],
     n_mutations : 0, n_renames : 0, n_exec : 0, n_creates : 0, n_chmods : 0,
     ws_touched : [false; NWS],
@@ -429,7 +429,7 @@ impl System for SymSystem
                 {
                     f.m_c08_overwrite = true;
                 }
-                f.set_slot(loc, Slot { present : true, content : EMPTY, mtime : f.cmd.fresh_mtime, exec : false, inode : 200 });
+                f.set_slot(loc, Slot { present : true, content : EMPTY, mtime : f.cmd.fresh_mtime[0], exec : false, inode : 200 });
                 f.after_mutation();
                 Ok(SymFile { content : EMPTY, pos : 0 })
             },
@@ -598,7 +598,7 @@ impl System for SymSystem
                     return vec![Err(SystemError::Weird)];
                 }
                 let t = f.cmd.target_slot[i];
-                f.ws[t] = Slot { present : true, content : f.cmd.out[i], mtime : f.cmd.fresh_mtime,
+                f.ws[t] = Slot { present : true, content : f.cmd.out[i], mtime : f.cmd.fresh_mtime[i],
                     exec : f.cmd.exec_out[i], inode : 50 + i as u8 };
                 /*  Under the determinism assumption (I2) a command only ever
                     overwrites a target ruler left in place with identical
